@@ -1,7 +1,7 @@
 """C13 — manifest scan. Theorems: Props/C13.lean (top-level names pairwise distinct for every list of base names,
 sortedness, counts, only plain files/directories listed, resolver). Tie (b): seeded trees are materialised (duplicate
 base names, names shaped like the tool's ordinal prefixes, overlapping and repeated selections, '.', trailing slashes,
-unicode / non-UTF-8 names, empty dirs, single files, symlinks to file/dir/nothing, FIFOs); the real ScanPaths (twice) and
+unicode / non-UTF-8 names, empty dirs, single files, symlinks to file/dir/nothing, FIFOs, sub-directories next to siblings whose names extend theirs by a byte below '/'); the real ScanPaths (twice) and
 the real resolver run on them; the whole manifest incl. ids is compared with the model, every listed file is read."""
 import json
 
@@ -44,10 +44,24 @@ def gen_case(rng):
                         entries.append({"p": q, "kind": "fifo"})
                     else:
                         entries.append({"p": q, "kind": "symlink", "target": "g1"})
+                # a sub-directory next to siblings whose names continue its name with a byte below '/': walking order and sorted
+                # order of the full paths differ there
+                if rng.chance(1, 2):
+                    base = rng.choice(["lib", "src", "é"])
+                    entries.append({"p": f"{p}/{base}", "kind": "dir"})
+                    entries.append({"p": f"{p}/{base}/inner.txt", "kind": "file", "n": 3})
+                    if rng.chance(1, 2):
+                        entries.append({"p": f"{p}/{base}/z", "kind": "dir"})
+                    for suf in rng.choice([[".go"], ["-old", ".go"], [" copy"], ["!", "+1", "."], ["-"]]):
+                        if rng.chance(1, 2):
+                            entries.append({"p": f"{p}/{base}{suf}", "kind": "file", "n": 5})
+                        else:
+                            entries.append({"p": f"{p}/{base}{suf}", "kind": "dir"})
+                            entries.append({"p": f"{p}/{base}{suf}/k", "kind": "file", "n": 1})
             tops.append(p)
     # selections: some of the created tops, possibly repeated, with '.', trailing slash, a top-level symlink
     sel = []
-    for _ in range(rng.range(1, 5)):
+    for _ in range(rng.choice([1, 1, 2, 3, 4])):
         t = rng.choice(tops)
         r = rng.below(10)
         if r == 0:
